@@ -8,6 +8,11 @@
 //	hist      sequential histories under several flush/compaction placements + metamorphic comparison
 //	conc      queries during flushes: flushes parked at chosen points of DataFamily.Flush, and free running flushes
 //	directed  fixed scenarios: arrival order of first/last fields, two memory databases created in one clock tick
+//
+// Debugging one case by hand (LOG_LEVEL=fatal TZ=UTC VERIF_SEED=n bin/c11 case hist <idx> <dir> quick):
+// C11_VERBOSE=1 prints every mismatch with its diagnostics, C11_ONLY_STYLE=<placement> runs one placement,
+// C11_STOP_AFTER_OPS=<k> with C11_EXTRA_SQL="sql;sql" stops before operation k, runs the statements and dumps the
+// families' memory databases and table blocks.
 package main
 
 import (
@@ -53,11 +58,11 @@ func main() {
 	c.Assume("race detector reports do not decide C11 (the unchanged tree races outside the anchored mechanisms); no race variant is built")
 
 	var jobs []job
-	nHist := c.Pick(40, 900)
+	nHist := c.Pick(40, 600)
 	for i := 0; i < nHist; i++ {
 		jobs = append(jobs, job{"hist", i})
 	}
-	nConc := c.Pick(20, 400)
+	nConc := c.Pick(20, 300)
 	for i := 0; i < nConc; i++ {
 		jobs = append(jobs, job{"conc", i})
 	}
@@ -98,6 +103,7 @@ func main() {
 		}
 		_ = os.RemoveAll(dir)
 	})
+	deaths := 0
 	for i, r := range results {
 		j := jobs[i]
 		if r == nil {
@@ -111,9 +117,11 @@ func main() {
 				c.Violation("C11/process-died/"+frame, fmt.Sprintf("%s %d: child died in anchored code: %s", j.kind, j.idx, tail(msg, 1500)),
 					map[string]interface{}{"kind": j.kind, "index": j.idx, "output": tail(msg, 6000)})
 			} else {
+				// e.g. "fatal error: concurrent map read and map write" outside the anchored mechanisms (the unchanged tree
+				// races there): an observation, the case is lost
 				c.Count("children_died_outside_anchored_code", 1)
 				c.Set(fmt.Sprintf("child_death_%s_%d", j.kind, j.idx), tail(msg, 1200))
-				c.Inconclusive("%s %d: child died (not in anchored code): %s", j.kind, j.idx, tail(firstLine(msg), 300))
+				deaths++
 			}
 			continue
 		}
@@ -136,6 +144,9 @@ func main() {
 		for _, v := range r.Violations {
 			c.Violation(v.Class, v.Message, v.Witness)
 		}
+	}
+	if deaths*10 > len(jobs) {
+		c.Inconclusive("%d of %d children died outside the anchored code", deaths, len(jobs))
 	}
 	if c.Counter("flushes_parked_with_queries_inside") < 5 {
 		c.Inconclusive("only %d flushes were parked with queries inside", c.Counter("flushes_parked_with_queries_inside"))
